@@ -159,6 +159,7 @@ func vreplayRun(t vtestingT, path string, h func()) {
 	if rf.Tier != "" {
 		vtier = rf.Tier
 	}
+	defer vcleanup()
 	// map iteration order inside the real code cannot be dictated: repeat the run
 	attempts := 1
 	if strings.Contains(rf.Label, "map-order") {
@@ -210,6 +211,78 @@ func vreplayRun(t vtestingT, path string, h func()) {
 	fmt.Printf("VERIF-NOT-REPRODUCED harness ran to completion\n")
 }
 
+// vwitnessRun: native cross-validation of the engine. Every recorded input is the solver's model of a path the engine
+// completed without violation; the native run must pass the same assertions.
+func vwitnessRun(t vtestingT, path string, hs map[string]func()) {
+	b, err := os.ReadFile(path)
+	if err != nil {
+		t.Fatalf("witness file: %v", err)
+	}
+	var wf struct {
+		Tier string
+		Runs []struct {
+			Harness string
+			Vector  []int64
+			Kinds   string
+		}
+	}
+	if err := json.Unmarshal(b, &wf); err != nil {
+		t.Fatalf("witness file: %v", err)
+	}
+	if wf.Tier != "" {
+		vtier = wf.Tier
+	}
+	defer vcleanup()
+	for i, r := range wf.Runs {
+		h := hs[r.Harness]
+		if h == nil {
+			fmt.Printf("VERIF-WITNESS %d SKIP unknown harness\n", i)
+			continue
+		}
+		vglobal = vstate{vec: r.Vector, kinds: r.Kinds}
+		res := vrunOnce(h)
+		switch {
+		case res == "":
+			fmt.Printf("VERIF-WITNESS %d OK\n", i)
+		case strings.HasPrefix(res, "vector:") || res == "assume" || res == "engine-only":
+			fmt.Printf("VERIF-WITNESS %d SKIP %s\n", i, res)
+		default:
+			fmt.Printf("VERIF-WITNESS %d FAIL %s\n", i, strings.ReplaceAll(res, "\n", " "))
+		}
+	}
+}
+
+// vtmpdir / vtouch: file-system fixtures of native runs (the engine stubs os.Open / os.Create instead).
+var vtmp string
+
+func vtmpdir() string {
+	if vtmp == "" {
+		d, err := os.MkdirTemp("", "verif.native.")
+		if err != nil {
+			panic(err)
+		}
+		vtmp = d
+	}
+	return vtmp
+}
+func vtouch(name string) {
+	if err := os.WriteFile(name, nil, 0o644); err != nil {
+		panic(err)
+	}
+}
+func vcleanup() {
+	if vtmp != "" {
+		os.RemoveAll(vtmp)
+		vtmp = ""
+	}
+}
+
+type vEngineOnly struct{}
+
+// vengineOnly marks a harness whose oracle reads engine-side captures (e.g. the value handed to the XML encoder):
+// it has no native counterpart and is left out of the cross-validation.
+func vengineOnly() { panic(vEngineOnly{}) }
+
 func vrunOnce(h func()) (res string) {
 	defer func() {
 		if r := recover(); r != nil {
@@ -220,6 +293,8 @@ func vrunOnce(h func()) (res string) {
 				res = "assume"
 			case vVectorError:
 				res = "vector: " + r.msg
+			case vEngineOnly:
+				res = "engine-only"
 			default:
 				res = fmt.Sprintf("panic: %v", r)
 			}
